@@ -280,6 +280,137 @@ def c17(ctx):
     return bad
 
 
+class StreamRng:
+    """replaces the functions of the `random` module that problems.py uses by implementations
+    whose ONLY source of randomness is `randbelow(n)` on a seeded base generator, with exactly the
+    draw patterns of lean/Mathy/Model/ProblemGen.lean, and records every draw"""
+    NAMES = ["randint", "randrange", "random", "uniform", "shuffle", "sample", "choice"]
+
+    def __init__(self, seed):
+        self.base = random.Random(seed)
+        self.draws = []
+        self.saved = {}
+        self.inexact = False
+
+    def rb(self, n):
+        d = self.base.randrange(n)
+        self.draws.append(d)
+        return d
+
+    def __enter__(self):
+        for n in self.NAMES:
+            self.saved[n] = getattr(random, n)
+        random.randint = lambda a, b: a + self.rb(b - a + 1) if b >= a else self.saved["randint"](a, b)
+        random.randrange = lambda n: self.rb(n)
+
+        def sample(pop, k):
+            rest = list(pop)
+            if k < 0 or k > len(rest):
+                raise ValueError("Sample larger than population or is negative")
+            out = []
+            for _ in range(k):
+                out.append(rest.pop(self.rb(len(rest))))
+            return out
+
+        def shuffle(x):
+            for i in range(len(x) - 1, 0, -1):
+                j = self.rb(i + 1)
+                x[i], x[j] = x[j], x[i]
+
+        def uniform(a, b):
+            assert (a, b) == (0, 1)
+            return self.rb(2 ** 53) / 2 ** 53
+
+        def unsupported(*a, **k):
+            raise RuntimeError("draw pattern not modelled")
+        random.sample, random.shuffle, random.uniform = sample, shuffle, uniform
+        random.random = unsupported
+        random.choice = unsupported
+        return self
+
+    def __exit__(self, *exc):
+        for n, f in self.saved.items():
+            setattr(random, n, f)
+        return False
+
+
+def replay_generators(ctx, drv):
+    """the REAL generators run on a recorded stream of draws; the Lean model of the generator
+    (Model/ProblemGen.lean) is fed the same draws and must produce the same tokens and the same
+    complexity, a well-formed shape, and the like-term promise"""
+    from fractions import Fraction
+    from . import parse_run as pr
+    quick = ctx.tier == "quick"
+    rng = random.Random(ctx.seed * 23 + 5)
+    jobs = []
+    for k in range(400 if quick else 8000):
+        which = rng.choice(["combine", "haystack", "blockers1", "blockers2"])
+        if which == "combine":
+            a = rng.choice([2, 3, 4, 8, 16, 24, 25, 26, 30])
+            b = a + rng.choice([0, 1, 3, 10])
+            params = [a, b, rng.randint(0, 1), rng.randint(0, 1)]
+            call = lambda p=params: PR.gen_combine_terms_in_place(min_terms=p[0], max_terms=p[1], easy=bool(p[2]), powers=bool(p[3]))
+        elif which == "haystack":
+            a = rng.choice([2, 3, 5, 8, 12, 20, 24])
+            b = a + rng.choice([0, 1, 3])
+            params = [a, b, rng.choice([1, 1, 2, 3, 7]), rng.randint(0, 1), rng.randint(0, 1)]
+            call = lambda p=params: PR.gen_commute_haystack(min_terms=p[0], max_terms=p[1], commute_blockers=p[2],
+                                                           easy=bool(p[3]), powers=bool(p[4]))
+        elif which == "blockers1":
+            params = [rng.choice([1, 2, 3, 5, 10, 22, 23]), rng.choice([0, 50, 100])]
+            call = lambda p=params: PR.gen_move_around_blockers_one(p[0], p[1] / 100)
+        else:
+            params = [rng.choice([1, 2, 3, 5, 10, 20, 21]), rng.choice([0, 50, 100])]
+            call = lambda p=params: PR.gen_move_around_blockers_two(p[0], p[1] / 100)
+        jobs.append((which, params, call, rng.randrange(1 << 30)))
+    PR.use_pretty_numbers(True)
+    lines, meta, diffs, bad = [], [], [], []
+    for which, params, call, seed in jobs:
+        with StreamRng(seed) as sr:
+            try:
+                out = ("ok",) + tuple(call())
+            except ValueError as e:
+                out = ("ValueError", str(e)[:80])
+            except Exception as e:  # noqa
+                out = ("exc", type(e).__name__ + ": " + str(e)[:80])
+        lines.append("gen " + which + " " + " ".join(str(x) for x in params) + " | " + " ".join(str(d) for d in sr.draws))
+        meta.append((which, params, seed, out))
+    ans = drv.ask(lines)
+    n_ok = 0
+    for (which, params, seed, out), a in zip(meta, ans):
+        rec = {"generator": which, "params": params, "stream_seed": seed}
+        if out[0] == "exc":
+            bad.append(dict(rec, generator=f"{which}{params}", problem="raised " + out[1]))
+            continue
+        if out[0] == "ValueError":
+            if a.strip() != "none":
+                diffs.append(dict(rec, impl="ValueError: " + out[1], model=a[:160]))
+            continue
+        text, cx = out[1], out[2]
+        toks = a.split()
+        if not toks or not toks[0].startswith("cx="):
+            diffs.append(dict(rec, impl=text, model=a[:160]))
+            continue
+        n_ok += 1
+        mt = pr.model_tok_answer(" ".join(toks[3:]))
+        rt = pr.impl_tok(text, False)
+        real = [x for x in rt[1][:-1]] if rt[0] == "toks" else None
+        if real is None or mt[1] != real or toks[0] != f"cx={cx}":
+            diffs.append(dict(rec, impl=text, complexity=cx, model=a[:300]))
+        elif toks[1] != "ok=true" or toks[2] != "like=true":
+            diffs.append(dict(rec, impl=text, model_flags=toks[1:3], problem="model shape not well formed / no like-term pair"))
+        try:
+            if not (isinstance(cx, int) and cx > 0):
+                bad.append(dict(rec, generator=f"{which}{params}", problem=f"complexity {cx} is not positive", text=text))
+            core.parse_fresh(text)
+        except Exception as e:  # noqa
+            bad.append(dict(rec, generator=f"{which}{params}", problem=f"text does not parse: {type(e).__name__}", text=text))
+    ctx.notes["generators_replayed_on_recorded_draws"] = {"runs": len(jobs), "texts": n_ok}
+    ctx.coverage["traces_validated_against_impl"] += len(jobs)
+    ctx.coverage["evaluations"] += len(jobs)
+    return bad, diffs
+
+
 def run(ctx):
     bad = c17(ctx)
     kinds = {}
@@ -331,7 +462,9 @@ def run(ctx):
                           "model_tokens": str(mt)[:200], "real_tokens": str(real)[:200]})
     ctx.coverage["traces_validated_against_impl"] += len(lines)
     ctx.notes["texts_matched_to_model_shapes"] = len(lines)
-    finish(ctx, [("problems", unlisted)], [("shape", diffs)], "generated problems are valid and contain what they promise")
+    rbad, rdiffs = replay_generators(ctx, drv)
+    unlisted += rbad[:5]
+    finish(ctx, [("problems", unlisted)], [("shape", diffs), ("generator_replay", rdiffs)], "generated problems are valid and contain what they promise")
 
 
 CHECKS = {"C17": run}
